@@ -53,6 +53,10 @@ def spaces(tier, seed):
     sp.append(Product("explicit-order-beats-locale", {"loc": range(len(LOCS)), "xorder": ORDERS, "plo": [None, True, False],
                                                       "date": [(2024, 3, 4), (1999, 12, 1), (2010, 11, 12)], "sep": ["/"]},
                       note="an explicitly supplied DATE_ORDER decides for every locale, whatever PREFER_LOCALE_DATE_ORDER says"))
+    langs_with_order = sorted({l for l, loc in LOCS if loc is None})
+    sp.append(Product("one-parser-two-languages", {"first": langs_with_order, "second": ["tl", "en", "fr", "zh"], "given": [True, False], "date": [(2020, 2, 3), (2010, 11, 12)]},
+                      note="one DateDataParser(languages=[second, first]) instance, two calls: a month-name date that only `first` understands, then a numeric date "
+                           "that `second` reads - in `second`'s own order (MDY when it has none), whatever locale the instance used before"))
     if T:
         sp.append(Product("sweep-year", {"order": ORDERS, "sep": ["-", "."], "y": range(1, 10000),
                                          "md": [(1, 2), (2, 29), (12, 31), (3, 4), (11, 12), (7, 25)], "pad": [True], "suffix": [""],
@@ -82,7 +86,38 @@ def swap_dm(o):
     return o.replace("D", "x").replace("M", "D").replace("x", "M")
 
 
+def run_two_languages(c):
+    from dateparser.date import DateDataParser
+    a, b = c["first"], c["second"]
+    if a == b:
+        return None
+    ia, ib = vocab.locale_info(a), vocab.locale_info(b)
+    mon = (ia.get("march") or [None])[0]
+    if not mon:
+        return None
+    y, m, d = c["date"]
+    p = DateDataParser(languages=[b, a], use_given_order=c["given"])
+    r1 = api.outcome_of(p.get_date_data, "15 %s 2015" % mon)        # whatever it gives: it makes the instance visit `a`
+    s = "%02d/%02d/%04d" % (m, d, y) if (ib.get("date_order") or "MDY") == "MDY" else None
+    O = ib.get("date_order") or "MDY"
+    s = write(O, "/", y, m, d, True, "")
+    o = api.outcome_of(p.get_date_data, s)
+    # the numeric string is read by the first language of the instance's order that accepts it; with the given order that is `b`
+    if o[0] == "ok" and o[1].locale == b:
+        if o[1].date_obj == datetime(y, m, d):
+            return "ok", True, None
+        return "bad", True, {"cls": {"form": "one-parser-two-languages", "locale": b, "expected_order": O, "kind": "wrong-value", "given": c["given"]},
+                             "expected": (datetime(y, m, d), "day"), "observed": (o[1].date_obj, o[1].period, o[1].locale),
+                             "detail": {"string": s, "languages": [b, a], "first_call": "15 %s 2015" % mon, "first_result": repr(r1[1:])[:200]}}
+    if o[0] == "exc":
+        return "bad", True, {"cls": {"form": "one-parser-two-languages", "locale": b, "expected_order": O, "kind": "exception:" + o[1], "given": c["given"]},
+                             "expected": (datetime(y, m, d), "day"), "observed": o[1:], "detail": {"string": s, "languages": [b, a]}}
+    return None      # answered by the other language (priority order): its own order applies, not judged here
+
+
 def run_case(sub, c):
+    if sub == "one-parser-two-languages":
+        return run_two_languages(c)
     if "order" in c:
         y = c["y"]
         m, d = c["md"]
